@@ -315,6 +315,9 @@ def tasks(tier, seed):
             out.append({"id": e["id"], "text": e["text"], "in": e.get("in") if e.get("in") != "auto" else None, "enabled": [tr], "tier": tier, "universe_pos": e.get("universe_pos")})
             if e["id"].startswith("T-"):
                 out.append({"id": e["id"] + "-L", "text": e["text"], "in": e.get("in"), "enabled": [tr], "tier": tier, "lift": True})
+    for e in props.corpus_D():
+        for tr in TRAITS:
+            out.append({"id": e["id"], "text": e["text"], "in": e.get("in"), "enabled": [tr], "tier": tier, "universe_pos": e.get("universe_pos")})
     for e in props.corpus_G("C20"):
         for tr in e.get("traits", TRAITS):
             out.append({"id": e["id"], "text": e["text"], "in": e.get("in"), "enabled": [tr], "tier": tier, "universe_pos": e.get("universe_pos")})
